@@ -51,9 +51,11 @@ PDG_POOL = [211, -211, 111, 321, 2212, -2212, 2112, 3122, 22, 11, -11, 13, 12, -
             99999999, 3133052, 0]
 
 ASSUMPTIONS = [
-    "C01: theorems are over layer 2 of model R (files as lists of observed lines, Rd.LineF). That the TEXT rendered by the grammar "
-    "has these observations (classification lemma) is NOT proved in Lean; it is evaluated by the driver (`obs`) on the real bytes of "
-    "every generated file of every run, together with byte equality of the Lean and Python renderings",
+    "C01: the theorems about the TEXT (C01_classification_holds, C01_full_holds) are about the model's own string primitives "
+    "(Core/Str.lean: structurally recursive substring test, split on a character, line splitting, int()/float() recognisers on "
+    "character lists). That these compute what Python's `in`, `split(' ')`, text-mode line reading, `int`, `float` compute is the "
+    "correspondence: the driver evaluates grammar / `obs` / the reader on the real bytes of every generated file of every run, "
+    "together with byte equality of the Lean and Python renderings (and C02/C05/C06/C07 do the same, C07 on every byte prefix)",
     "C01: Python's float(tok) (nearest double) and int(tok) are trusted and sampled against `fractions`; integer columns are assumed "
     "to fit a double exactly (|v| <= 2^53; values are stored in a float array by design)",
     "C01: particle.PDGID (is_valid, three_charge) is a parameter of the derived-charge theorem; its value is supplied per case from "
